@@ -784,13 +784,11 @@ func (p *partialCall) CallFromStack(context *Context, n int, scratch []reflect.V
 		vm.Args = oargs
 		return scratch, err
 	} else if n+p.n < p.c.NumArgs() {
-		argsStart := len(vm.Args) - n - 1
-		es := make([]b6.Expression, 0, n)
+		argsStart := len(vm.Stack) - n - 1
 		pp := &partialCall{c: p, e: expression, vmArgs: vm.Args}
 		pp.n = n
 		for i := 0; i < n; i++ {
 			pp.args[i] = vm.Stack[argsStart+i]
-			es[i] = vm.Stack[argsStart+i].Expression
 		}
 		vm.Stack = vm.Stack[0:argsStart]
 		vm.Stack = append(vm.Stack, StackFrame{
